@@ -1288,3 +1288,50 @@ pub fn mon_cid(scn: &Scenario, r: &Record, out: &mut V) {
         }
     }
 }
+
+// ------------------------------------------------------------------------------------------
+// ADV (C04, end to end): one offending packet from an otherwise honest peer
+// ------------------------------------------------------------------------------------------
+
+pub fn mon_adv(_scn: &Scenario, r: &Record, adv: &crate::families::Adv, out: &mut V) {
+    let cat = crate::families::adv_catalogue();
+    let item = &cat[adv.item];
+    let victim = other(adv.attacker);
+    // was the offending packet written at all, and did the victim process it?
+    let marker = r.app.iter().find(|a| matches!(&a.ev, App::TaskDone { name } if name.starts_with("adv-injected")));
+    let Some(marker) = marker else {
+        return; // the attacker never wrote an n-th packet in that space: nothing was injected in this run
+    };
+    let (pn, t_inj) = match &marker.ev {
+        App::TaskDone { name } => (name.trim_start_matches("adv-injected-").parse::<u64>().unwrap_or(u64::MAX), marker.t),
+        _ => return,
+    };
+    let processed = r.rx.iter().any(|p| p.ep == victim && p.space == adv.space && p.pn == pn);
+    if !processed {
+        return; // lost / keys gone: the victim never saw it
+    }
+    let closed = r.events.iter().find(|e| e.ep == victim && matches!(e.ev, Ev::Closed { .. }));
+    match closed {
+        Some(Event { ev: Ev::Closed { transport_code: Some(code), kind, .. }, t, .. }) if kind == "Transport" => {
+            if !item.allowed.contains(code) {
+                v(out, "adv.wrong_error_code", format!("{}: victim {} closed with transport error {:#x}, allowed {:x?} ({})", item.name, epn(victim), code, item.allowed, item.rfc));
+            }
+            let _ = t;
+        }
+        Some(Event { ev: Ev::Closed { error, .. }, t, .. }) => {
+            // closed for another reason after the injection (e.g. the attacker's own honest close) is not a rejection
+            if *t >= t_inj {
+                v(out, "adv.not_rejected", format!("{}: victim {} processed the offending packet (space {}, pn {}) but the connection ended with {} instead of a transport error ({})", item.name, epn(victim), adv.space, pn, error.chars().take(80).collect::<String>(), item.rfc));
+            }
+        }
+        _ => {
+            v(out, "adv.not_rejected", format!("{}: victim {} processed the offending packet (space {}, pn {}) and never closed the connection ({})", item.name, epn(victim), adv.space, pn, item.rfc));
+        }
+    }
+    // none of the offending data reaches the application: every read still matches the honest PRF stream
+    for a in r.app.iter().filter(|a| a.ep == victim) {
+        if let App::Read { stream, ok: false, first_bad, .. } = &a.ev {
+            v(out, "adv.offending_data_delivered", format!("{}: victim {} read bytes on stream {} that the honest script never wrote (offset {:?})", item.name, epn(victim), stream, first_bad));
+        }
+    }
+}
